@@ -407,7 +407,7 @@ def r5_batch_axes(repo: Repo, rep):
 
 def r6_empty_and_slices(repo: Repo, rep):
     R = rep.rule("R-C12-6", "isempty means no rows AND no columns (the join / concatenation short-cuts drop an operand on it); Space[name slice] equals "
-                 "keys[index(start) : index(stop) : step] with open ends left open, for forward and backward steps", floor=11,
+                 "keys[index(start) : index(stop) : step] with open ends left open, for forward and backward steps; Space[[names]] lists exactly the names in the requested order", floor=16,
                  why="a zero-row Points with a real space is not empty: dropping it loses its columns; explicit default bounds break negative steps")
     P = repo.cls(PTS)
     fi = P.methods.get("isempty")
@@ -447,17 +447,25 @@ def r6_empty_and_slices(repo: Repo, rep):
     keys = ["a", "b", "c", "d"]
     space = OrderedDict((k, i + 1) for i, k in enumerate(keys))
     cases = [(None, None, None), ("b", None, None), (None, "c", None), ("b", "d", None), (None, None, -1), ("c", None, -1), (None, "b", -1), ("d", "a", -1), (None, None, 2), ("a", None, 2)]
-    for st, sp, step in cases:
-        idx = slice(keys.index(st) if st is not None else None, keys.index(sp) if sp is not None else None, step)
-        want = keys[idx]
+    selections = [["c", "a"], ["d", "c", "b", "a"], ("b", "d", "a", "c"), ["a", "b", "c", "d"], ["b"]]
+    for case in cases + selections:
+        if isinstance(case, (list,)) or (isinstance(case, tuple) and all(isinstance(x, str) for x in case)):
+            want = list(case)
+            arg = case
+            label = f"space[{case!r}]"
+        else:
+            st, sp, step = case
+            idx = slice(keys.index(st) if st is not None else None, keys.index(sp) if sp is not None else None, step)
+            want = keys[idx]
+            arg = slice(st, sp, step)
+            label = f"space['{st or ''}':'{sp or ''}':{step or ''}]"
 
         def on_call(e, name, args, kws, ev, f):
             if name == "Space" and args and isinstance(args[0], dict):
                 return args[0]
             return None
-        fr = Evaluator(None, on_call).run(gi.node.body, {"self": OrderedDict(space), gi.params[1]: slice(st, sp, step)})
+        fr = Evaluator(None, on_call).run(gi.node.body, {"self": OrderedDict(space), gi.params[1]: arg})
         got = fr.ret
-        label = f"space['{st or ''}':'{sp or ''}':{step or ''}]"
         if not isinstance(got, dict):
             rep.undecided(R, gi.site(), gi.fq, f"{label} evaluable", repr(got)[:80])
             continue
